@@ -12,6 +12,12 @@ COMMON_NOTE = (
 )
 
 CHECKS = {
+    "C13": dict(
+        technique="bounded-exhaustive enumeration of metacharacter payloads x echo positions, differential on the parsed element/attribute skeleton against an inert payload of the same shape, on the implementation",
+        text="Every payload of <=3 (quick) / <=4 (thorough) characters over < > & \" ' CR LF a SP / = ; is placed in each of 16 positions where request or content text is echoed into generated markup (selector in the HTTP 404 page / WAP error card / URL redirect page, search string, file and directory names and titles, HTML <title>, mail Subject, abstracts, link-file Name/Path/Host, gophermap description/selector/host, text converted to WML, Gopher+ sidecars) "
+             "and requested through HTTP, WAP and Gopher+; the page's start/end-tag and attribute-name skeleton, the HTTP header block and the sequence of Gopher+ block headers must equal those obtained with an inert payload of the same length and line structure.",
+        design_ref="DESIGN.md 3/C13",
+    ),
     "C16": dict(
         technique="bounded-exhaustive enumeration of archives (subsets of member kinds) with a two-world differential: the same tree extracted on disk vs zipped, every selector x protocol, on the implementation; audit-event monitor for the real-file-only handlers",
         text="Every subset of <=3 (quick) / <=4 (thorough) of 18 member kinds (nested, explicit and implicit directories, dot-files, UMN/gophermap metadata, sidecars, UTF-8 and CP437 names, relative/absolute/dangling/cyclic link members) is built as an extracted tree and as a ZIP; "
